@@ -499,6 +499,20 @@ def c14_hexital_check(scn):
             elif op[0] == "recalculate":
                 hx.recalculate(target)
                 after = snapshot(hx.candles())
+            elif op[0] == "readd":
+                # remove_indicator = purge + drop; then the same kind under the same name with another input
+                spec_i = names.index(target)
+                hx.remove_indicator(target)
+                after = snapshot(hx.candles())
+                left = sorted({k for c in hx.candles() for k in list(c.indicators) + list(c.sub_indicators) if k in own})
+                if left:
+                    return {"clause": "remove-leaves-entries", "observed": left[:5], "expected": f"no entry of {target} left"}
+                sp2 = dict(scn["members"][spec_i])
+                if "input" in sp2:
+                    sp2["input"] = op[2]
+                sp2["name"], sp2["suffix"] = target, None
+                scn["members"][spec_i] = sp2
+                hx.add_indicator(specs.build_indicator(sp2, [], with_manager=False))
             else:
                 # only indices whose reading and predecessors are already computed may be recomputed
                 hx.calculate()
@@ -510,6 +524,9 @@ def c14_hexital_check(scn):
                 if before != after:
                     return {"clause": "calculate_index-differs", "observed": {"target": target, "index": op[2], **(first_diff(before, after) or {})},
                             "expected": "recomputing a computed index reproduces it"}
+            # helper indicators are created lazily by the first calculate(): take the names after the operation too
+            if target in hx.indicators:
+                own = own | tree_names(hx.indicator(target))
             # nothing else may change: compare every key not owned by the target
             for i, (b, a) in enumerate(zip(before, after)):
                 for d1, d2 in ((b[1], a[1]), (b[2], a[2])):
@@ -566,11 +583,15 @@ def c14_hexital_case(rng, idx, params):
             prog.append(("purge", rng.randint(0, 9)))
         elif k < 0.85:
             prog.append(("recalculate", rng.randint(0, 9)))
-        else:
+        elif k < 0.93:
             prog.append(("calculate_index", rng.randint(0, 9), rng.choice([-1, -2, -1])))
+        else:
+            prog.append(("readd", rng.randint(0, 9), rng.choice(["high", "low", "open"])))
     scn = {"members": members, "stream": stream, "init": init, "program": prog}
     try:
-        bad = c14_hexital_check(scn)
+        import copy
+
+        bad = c14_hexital_check(copy.deepcopy(scn))
     except Exception:
         bad = None
     viol = {"scenario": scn, **bad, "signature": f"C14:hexital:{bad['clause']}"} if bad else None
@@ -582,7 +603,9 @@ def c14_hexital_case(rng, idx, params):
 def c14_any_replay(w):
     s = w["scenario"]
     if "members" in s:
-        bad = c14_hexital_check({**s, "program": [tuple(o) for o in s["program"]]})
+        import copy
+
+        bad = c14_hexital_check({**copy.deepcopy(s), "program": [tuple(o) for o in s["program"]]})
         return {"fails": bad is not None, "detail": bad}
     return c14_replay(w)
 
